@@ -200,7 +200,9 @@ class C13(Check):
     RULE = ("seeded histories over KeyedList for 10 item universes (self-keyed str / int, tuples with an explicit key "
             "function, keyed spec items; untyped and KeyedList[T, K]); each operation runs against a plain-list model and, "
             "for universes with a key function, is re-executed with an InjectedFault at every key-function invocation "
-            "index. evaluations = operation executions; distinct_nontrivial = distinct (universe, operation, container "
+            "index; keys() / items() are compared with a linear scan IN ORDER after every successful operation; slice results "
+            "are read as KeyedLists in their own right and one in twenty is copied / extended through 1100 further generations. "
+            "evaluations = operation executions; distinct_nontrivial = distinct (universe, operation, container "
             "length 0..4/5+, index class, outcome class).")
 
     OPS = [("getitem_idx", 2), ("getitem_slice", 1), ("getitem_key", 2), ("setitem_idx", 3), ("setitem_key", 2),
